@@ -479,6 +479,7 @@ def handle (s : State) : Msg → Option State
     let a := keyAddr s k
     let v := (aget s.vals a).getD { status := 0, jailed := false, tokens := 0, unstake := 0 }
     if v.status != 0 then none
+    else if (match aget s.sign a with | some si => si.tomb | none => false) then none   -- tombstoned for good
     else if amt < s.p.minStake then none
     else if balOf s a < amt then none
     else
